@@ -643,7 +643,8 @@ def classify(res, key):
     if pred.get("integral_state_torn"):
         return "C13:integral-state-torn"
     if pred.get("replace_window"):
-        if pred.get("iteration_not_advanced") and res.get("func") != "consume_sample":
+        # (asynchronous placements have no target function: the innermost interrupted nessai function recorded by the observer is used)
+        if pred.get("iteration_not_advanced") and (res.get("func") or (res.get("stack") or [None])[0]) != "consume_sample":
             return "C13:" + key   # not the recorded mechanism: deeper in the replace step the iteration counter has always advanced already
         return "C13:replace-window"
     if pred.get("pool_flag_window"):
